@@ -217,6 +217,31 @@ def run_case(case):
                 raise Violation('statistics.json %s = %r, in memory %r' % (k, a, b))
         if [v for _, v in dj['drawdowns']] != got_dd or [v for _, v in dj['equity_curve']] != [v for _, v in s['equity_curve']]:
             raise Violation('statistics.json series differ from the in-memory statistics')
+        # the benchmark section of the JSON export is computed from the benchmark curve, not from the strategy
+        if case.get('benchmark'):
+            be = case['benchmark']
+            bo = oracle(be, idx)
+            beq = pd.DataFrame({'Equity': list(be)}, index=list(idx))
+            eq0 = pd.DataFrame({'Equity': list(e)}, index=list(idx))
+            alloc = pd.DataFrame({'EQ:A': [1.0] * n}, index=list(idx))
+            jb = q.JSONStatistics(eq0, alloc, benchmark_curve=beq, output_filename=tmp).statistics
+            sb, ss = jb['benchmark'], jb['strategy']
+            if abs(float(sb['max_drawdown']) - bo['maxdd']) > 1e-9:
+                raise Violation('benchmark max drawdown %r, definition gives %r' % (float(sb['max_drawdown']), bo['maxdd']))
+            if not close(float(sb['cagr']), bo['cum_last'] ** (252.0 / n) - 1, 1e-9, 1e-6):
+                raise Violation('benchmark CAGR %r, definition gives %r' % (float(sb['cagr']), bo['cum_last'] ** (252.0 / n) - 1))
+            for per, key in (('monthly', 'monthly_agg_returns'), ('yearly', 'yearly_agg_returns')):
+                got = dict(((tuple(k) if isinstance(k, (tuple, list)) else (k,)), float(v)) for k, v in sb[key])
+                for k, v in bo['agg'][per].items():
+                    if k not in got or not close(got[k], v, 1e-8, 1e-3):
+                        raise Violation('benchmark %s return for %s is %r, compounding its own daily returns gives %r' % (
+                            per, k, got.get(k), v))
+            got_dd_b = [v for _, v in sb['drawdowns']]
+            if any(abs(a - b) > 1e-9 for a, b in zip(got_dd_b, bo['dd'])):
+                raise Violation('benchmark drawdown series differs from the definition')
+            if [v for _, v in ss['drawdowns']] != got_dd or float(ss['cagr']) != float(s['cagr']):
+                raise Violation('strategy statistics change when a benchmark curve is supplied')
+            cls.append('with_benchmark')
         # scale invariance
         k2 = 2.0 ** case['pow2']
         _, s2 = stats_for(q, [x * k2 for x in e], idx, tmp)
@@ -277,7 +302,10 @@ def cases(draw):
                         st.sampled_from([D.date(2020, 12, 21), D.date(2015, 12, 24), D.date(2026, 12, 28), D.date(1999, 12, 27)])))
     e0 = draw(st.one_of(gen.logu(10, 1e6), st.sampled_from([100.0, 1e6, 1e4])))
     e = build_curve(draw(st.integers(0, 2 ** 31)), n, shape, e0)
-    return {'shape': shape, 'start': [d0.year, d0.month, d0.day], 'equity': e, 'pow2': draw(st.sampled_from([1, -3, 10, 4])),
+    bench = None
+    if draw(st.sampled_from([False, True])):
+        bench = build_curve(draw(st.integers(0, 2 ** 31)), n, draw(st.sampled_from(SHAPES)), draw(st.sampled_from([100.0, 5e4])))
+    return {'shape': shape, 'start': [d0.year, d0.month, d0.day], 'equity': e, 'benchmark': bench, 'pow2': draw(st.sampled_from([1, -3, 10, 4])),
             'scale': draw(st.sampled_from([3.7, 0.01, 1e3, 1.1, 0.37]))}
 
 
